@@ -1520,6 +1520,9 @@ fn deep(sub: &str, n: usize, kind: &str) -> String {
         }
         "to_string" => format!("ok {}", jsonb::to_string(&deep_bin(n, kind)).len()),
         "to_pretty_string" => format!("ok {}", jsonb::to_pretty_string(&deep_bin(n, kind)).len()),
+        // the same two renderers on a deeply nested document given as JSON TEXT (they return the text as it is: no recursion)
+        "to_string_text" => format!("ok {}", jsonb::to_string(&deep_text(n, kind)).len()),
+        "to_pretty_string_text" => format!("ok {}", jsonb::to_pretty_string(&deep_text(n, kind)).len()),
         // C09: the path parser on a text nested n levels deep (kind: paren | exists | filter)
         "path_parse" => {
             let mut t: Vec<u8> = Vec::new();
